@@ -104,14 +104,29 @@ def check_nearest(idx: Index, rep: Report) -> None:
                 r.fail(f.fq, Finding("C29.R2", f.fq, k, m, f.loc))
         else:
             r.ok(f.fq, f"{f.loc} {v} := {start}; while …: {v} = {v}.parent_op()")
-    f = idx.func(UT, "SymbolTable.lookup_nearest_symbol_from")
-    t = [unparse(s) for s in f.node.body if not (isinstance(s, ast.Expr) and isinstance(s.value, ast.Constant))]
-    a0, a1 = f.node.args.args[0].arg, f.node.args.args[1].arg
-    if t == [f"symbol_table_op = SymbolTable.get_nearest_symbol_table({a0})", "if symbol_table_op is None:\n    return None", f"return SymbolTable.lookup_symbol_in(symbol_table_op, {a1})"]:
-        r.ok(f.fq, f"{f.loc} lookup in the nearest table")
-    else:
-        r.fail(f.fq, Finding("C29.R2", f.fq, "nearest-lookup", "lookup_nearest_symbol_from must look the symbol up in get_nearest_symbol_table(from_op)", f.loc))
-
+    for q in ("SymbolTable.lookup_nearest_symbol_from", "SymbolTableCollection.lookup_nearest_symbol_from"):
+        f = idx.func(UT, q)
+        cfg = CFG(f.node)
+        params = [a.arg for a in f.node.args.args if a.arg not in ("self", "cls")]
+        a0, a1 = params[0], params[1]
+        lk = [c for c in calls_in(f.node) if call_attr(c) == "lookup_symbol_in"]
+        if not lk:
+            raise AnalysisError(f"{f.fq}: call to lookup_symbol_in not found")
+        for c in lk:
+            tab = c.args[0]
+            srcs: list[str] = []
+            if isinstance(tab, ast.Name):
+                for nid, val in reaching_defs(cfg, tab.id, cfg.node_of(c)):
+                    srcs.append(unparse(val) if val is not None else f"<{cfg.nodes[nid].text()}>")
+            else:
+                srcs.append(unparse(tab))
+            good = {f"SymbolTable.get_nearest_symbol_table({a0})", f"traits.SymbolTable.get_nearest_symbol_table({a0})"}
+            sym_ok = len(c.args) > 1 and unparse(c.args[1]) == a1
+            if srcs and all(x in good for x in srcs) and sym_ok:
+                r.ok(f.fq, f"{f.loc} looks `{a1}` up in get_nearest_symbol_table({a0})")
+            else:
+                bad = [x for x in srcs if x not in good]
+                r.fail(f.fq, Finding("C29.R2", f.fq, "nearest-lookup", f"the table passed to lookup_symbol_in can come from `{(bad or srcs)[0][:90]}` instead of get_nearest_symbol_table({a0}) computed for this very operation: a table remembered under another key (e.g. the parent block) is wrong for a nested symbol-table operation, whose nearest table is itself", f"{f.module.relpath}:{c.lineno}"))
 
 def check_direct_vs_cached(idx: Index, rep: Report) -> None:
     r = rep.rule("C29.R3", "the cached table and the direct scan decide 'is a symbol with this name' identically (name is not None; same block; same name accessor) and duplicates are rejected by the verifier", floor=4)
